@@ -408,6 +408,12 @@ impl<T: Config> P2PSession<T> {
         // check time sync between clients and send wait recommendation, if appropriate
         self.check_wait_recommendation();
 
+        // desync and wait-recommendation events are queued without passing through
+        // `handle_event`; enforce the documented bound of the event queue for them as well
+        while self.event_queue.len() > MAX_EVENT_QUEUE_SIZE {
+            self.event_queue.pop_front();
+        }
+
         Ok(requests)
     }
 
